@@ -10,13 +10,14 @@ from framework import Result
 from props import _util
 
 ID = 'C13'
-LEAN_TARGETS = ['TexSoupProofs.Properties.C13Lines', 'TexSoupProofs.Properties.C13Positions', 'TexSoupProofs.Properties.C19']
+LEAN_TARGETS = ['TexSoupProofs.Properties.C13Lines', 'TexSoupProofs.Properties.C13Positions', 'TexSoupProofs.Properties.C19',
+                'TexSoupProofs.Properties.C13Regex']
 THEOREMS = ['TexSoup.C13Lines.' + n for n in (
     'lineStart_no_lf', 'lineStart_after_lf', 'charPosToLine_correct_le', 'charPosToLine_correct',
     'charPosToLine_correct_at_end', 'charPosToLine_beyond_end',
     'Legacy.charPosToLine_wrong_at_lf', 'Legacy.charPosToLine_wrong_at_every_lf')] + [
     'TexSoup.C13.node_positions', 'TexSoup.C13.node_positions_nonempty', 'TexSoup.C13.node_first_char',
-    'TexSoup.C13.intended_statement_false', 'TexSoup.token_offsets', 'TexSoup.token_offsets_bounded']
+    'TexSoup.C13.intended_statement_false', 'TexSoup.token_offsets', 'TexSoup.token_offsets_bounded', 'TexSoup.C13.match_offset']
 PARTIAL = ['clause (i) is proved in the form: at the recorded offset of every node the source carries the first token of '
            'that node and the node\'s text starts with it (C13.node_positions, node_first_char); the only exception is the '
            'empty text child of an empty verbatim-like environment (C13.intended_statement_false); nodes made up for a bare '
